@@ -185,6 +185,10 @@ protected:
     const size_t m_commit_offset;
 
 private:
+#ifdef BITCOIN_VERIF
+    //! Read-only access for the verification harness (commitment store, redownload buffer, salted hasher).
+    friend struct VerifProbe;
+#endif
     /** Clear out all download state that might be in progress (freeing any used
      * memory), and mark this object as no longer usable.
      */
